@@ -20,7 +20,6 @@ pub mod verif_sync;
 mod bridge;
 
 use bridge::*;
-use oracle::tb::{mate_distance, Tablebase, Val};
 use oracle::*;
 use searcher::verif::{Plan, VerifEntry, VerifTable};
 use searcher::{ControlEvent, SearchArtifact, Searcher, StatusEvent};
@@ -43,6 +42,10 @@ struct Args {
     seed: u64,
     max_secs: u64,
     variant: usize,
+    good: Vec<String>,
+    root_win: usize,
+    rec_fen: Option<String>,
+    rec_move: Option<String>,
 }
 
 fn parse_args() -> Args {
@@ -60,6 +63,10 @@ fn parse_args() -> Args {
         seed: 0,
         max_secs: 600,
         variant: 0,
+        good: vec![],
+        root_win: 0,
+        rec_fen: None,
+        rec_move: None,
     };
     let mut i = 2;
     while i + 1 < a.len() {
@@ -76,6 +83,10 @@ fn parse_args() -> Args {
             "--seed" => r.seed = v.parse().unwrap(),
             "--max-secs" => r.max_secs = v.parse().unwrap(),
             "--variant" => r.variant = v.parse().unwrap(),
+            "--good" => r.good = v.split(',').filter(|x| !x.is_empty()).map(|x| x.to_string()).collect(),
+            "--root-win" => r.root_win = v.parse().unwrap(),
+            "--rec-fen" => r.rec_fen = Some(v),
+            "--rec-move" => r.rec_move = Some(v),
             x => panic!("unknown argument {}", x),
         }
         i += 2;
@@ -225,16 +236,15 @@ fn h_workers_lines(args: &Args) -> Value {
 // ---------------------------------------------------------------- harness: workers_mate (C06)
 
 fn h_workers_mate(args: &Args) -> Value {
+    // the tablebase facts are computed by the caller (posmc): --root-win n (0 = the side to
+    // move has no forced mate) and --good = the first moves that keep the forced mate
     let p = Pos::from_fen(&args.fen).expect("bad fen");
-    let tb = StdArc::new(Tablebase::build(8));
-    let root_val = tb.probe(&p);
     let (depth, workers, seed, tables, buckets) = (args.depth, args.workers, args.seed, args.tables, args.buckets);
     let fen = args.fen.clone();
-    let need_mate = match (root_val, depth) {
-        (Some(Val::Win(n)), Some(d)) => (n as usize) <= d,
-        _ => false,
-    };
-    let r = explore(args, move |sh| {
+    let root_win = args.root_win;
+    let good = args.good.clone();
+    let need_mate = root_win > 0 && depth.map(|d| root_win <= d).unwrap_or(false);
+    let mut r = explore(args, move |sh| {
         let artifact = SearchArtifact::verif_new(seed, tables, buckets);
         let (bests, _) = search(&p, seed, depth, workers, artifact, None);
         let mut out = String::new();
@@ -244,9 +254,7 @@ fn h_workers_mate(args: &Args) -> Value {
                 continue;
             }
             if *eval >= 10_000 {
-                let mv = mv_of(&line[0]);
-                let succ = p.legal().into_iter().find(|(m, _)| *m == mv).unwrap().1;
-                let ok = matches!(root_val, Some(Val::Win(_))) && matches!(tb.probe(&succ), Some(Val::Loss(_)));
+                let ok = root_win > 0 && good.contains(&mv_of(&line[0]).lan());
                 if !ok {
                     sh.violation(json!({"kind": "false-mate-claim", "fen": fen, "line": lan_line(line), "evaluation": eval}));
                 }
@@ -256,15 +264,14 @@ fn h_workers_mate(args: &Args) -> Value {
         match bests.last() {
             Some((line, eval)) => {
                 if need_mate && *eval < 10_000 {
-                    sh.violation(json!({"kind": "forced-mate-missed", "fen": fen, "line": lan_line(line), "evaluation": eval, "tablebase": format!("{:?}", root_val)}));
+                    sh.violation(json!({"kind": "forced-mate-missed", "fen": fen, "line": lan_line(line), "evaluation": eval, "mate_in_plies": root_win}));
                 }
             }
             None => sh.violation(json!({"kind": "no-report", "fen": fen})),
         }
         sh.outcome(out);
     });
-    let mut r = r;
-    r["tablebase_root"] = json!(format!("{:?}", root_val));
+    r["mate_in_plies"] = json!(root_win);
     r["mate_required"] = json!(need_mate);
     r
 }
@@ -272,25 +279,17 @@ fn h_workers_mate(args: &Args) -> Value {
 // ---------------------------------------------------------------- harness: workers_history (C17)
 
 fn h_workers_history(args: &Args) -> Value {
+    // --rec-fen: the recorded successor, --rec-move: the move leading to it, --depth: a depth
+    // at which a mate avoiding the recorded position exists (all computed by the caller)
     let p = Pos::from_fen(&args.fen).expect("bad fen");
-    let tb = StdArc::new(Tablebase::build(8));
-    let legal = p.legal();
-    let winners: Vec<(Mv, Pos)> = legal.iter().filter(|(_, n)| matches!(tb.probe(n), Some(Val::Loss(_)))).cloned().collect();
-    assert!(winners.len() >= 2, "position has fewer than two mate-preserving moves");
-    let (rec_mv, rec_pos) = winners[args.variant % winners.len()].clone();
-    let rec_key = rec_pos.key();
-    let root_key = p.key();
-    let drawn = move |q: &Pos| {
-        let k = q.key();
-        k == rec_key || k == root_key
-    };
-    let n2 = mate_distance(&p, 5, &drawn).expect("no mate left within 5 plies");
-    let depth = args.depth.unwrap_or(n2 as usize).max(n2 as usize);
+    let rec_pos = Pos::from_fen(args.rec_fen.as_ref().expect("--rec-fen")).expect("bad rec fen");
+    let rec_mv = args.rec_move.clone().expect("--rec-move");
+    let depth = args.depth.expect("--depth");
     let (workers, seed, tables, buckets) = (args.workers, args.seed, args.tables, args.buckets);
     let fen = args.fen.clone();
     let rec_fen = rec_pos.fen();
-    let rec_fen2 = rec_fen.clone();
-    let mut r = explore(args, move |sh| {
+    let good = args.good.clone();
+    explore(args, move |sh| {
         let mut artifact = SearchArtifact::verif_new(seed, tables, buckets);
         artifact.verif_record_history(&to_state(&rec_pos));
         let (bests, _) = search(&p, seed, Some(depth), workers, artifact, None);
@@ -303,20 +302,19 @@ fn h_workers_history(args: &Args) -> Value {
         }
         match bests.last() {
             Some((line, eval)) => {
+                let first = mv_of(&line[0]).lan();
                 if *eval < 10_000 {
                     sh.violation(json!({"kind": "repetition-avoiding-mate-missed", "fen": fen, "recorded": rec_fen, "line": lan_line(line), "evaluation": eval, "depth": depth}));
-                } else if mv_of(&line[0]) == rec_mv {
+                } else if first == rec_mv {
                     sh.violation(json!({"kind": "repeating-move-chosen", "fen": fen, "recorded": rec_fen, "line": lan_line(line)}));
+                } else if !good.contains(&first) {
+                    sh.violation(json!({"kind": "first-move-spoils-the-mate", "fen": fen, "recorded": rec_fen, "line": lan_line(line)}));
                 }
             }
             None => sh.violation(json!({"kind": "no-report", "fen": fen})),
         }
         sh.outcome(out);
-    });
-    r["recorded"] = json!(rec_fen2);
-    r["depth"] = json!(depth);
-    r["mate_distance_with_recorded_drawn"] = json!(n2);
-    r
+    })
 }
 
 // ---------------------------------------------------------------- harness: analyze_protocol (C04) / analyze_deterministic (C19)
